@@ -134,7 +134,8 @@ MigCount(u, n) == n = mg[u].ncb /\ UNCHANGED hvars
 \* observed thread states: 0 READY, 1 RUNNING, 2 BLOCKED, 3 TERMINATED
 Ready(t) == st[t] \in {"created", "ready", "resumable"}
 Primary(u) == /\ st[u] = "none" /\ st' = [st EXCEPT ![u] = "running"]
-              /\ UNCHANGED <<arg, tok, cst, starts, inYield, mg, inpool, expect, rin>>
+              /\ mg' = [mg EXCEPT ![u].pool = 0]
+              /\ UNCHANGED <<arg, tok, cst, starts, inYield, inpool, expect, rin>>
 PrimaryDone(u) == /\ st[u] = "running" /\ st' = [st EXCEPT ![u] = "freed"]
               /\ UNCHANGED <<arg, tok, cst, starts, inYield, mg, inpool, expect, rin>>
 \* the caller takes a ready unit out of the pool
@@ -142,7 +143,7 @@ Pop(by, t) == /\ ByOK(by) /\ Ready(t) /\ inpool[t]
               /\ inpool' = [inpool EXCEPT ![t] = FALSE]
               /\ UNCHANGED <<st, arg, tok, cst, starts, inYield, mg, expect, rin>>
 \* what a primitive does to the caller u and the target t, and what t must see
-Prim(u, op, t, a) ==
+Prim(u, op, t, a, pl) ==
     /\ st[u] = "running" /\ expect = NoExpect
     /\ CASE op \in {"yield_to", "thread_yield_to"} ->
                /\ Ready(t) /\ inpool[t] = (op = "thread_yield_to")
@@ -201,7 +202,8 @@ Prim(u, op, t, a) ==
     /\ (op \notin {"create_to", "revive_to"} => arg' = arg)
     /\ (op \notin {"exit_to", "resume_exit_to", "revive_to"} => tok' = tok)
     /\ (op # "revive_to" => starts' = starts)
-    /\ UNCHANGED <<cst, inYield, mg, rin>>
+    /\ mg' = IF op \in {"create_to", "revive_to"} THEN [mg EXCEPT ![t].pool = pl] ELSE mg
+    /\ UNCHANGED <<cst, inYield, rin>>
 \* u has control.  If a directed switch is pending, u must be the named target
 \* and must see the caller in the documented state.  The pool's size and total
 \* size it reads must match: size = units in the pool, total - size = blocked units.
@@ -211,8 +213,9 @@ Run(u, of, ost, size, total) ==
                             ELSE of = -1
     /\ st' = [st EXCEPT ![u] = "running"] /\ inpool' = [inpool EXCEPT ![u] = FALSE]
     \* (a resume in progress on another stream may or may not have pushed / uncounted its unit yet)
-    /\ LET bs == Cardinality({v \in Units : inpool'[v] /\ v \notin rin})
-           bb == Cardinality({v \in Units : st'[v] = "blocked"})
+    \* (the observed pool is pool 0, the one the stream's scheduler serves)
+    /\ LET bs == Cardinality({v \in Units : inpool'[v] /\ v \notin rin /\ mg[v].pool = 0})
+           bb == Cardinality({v \in Units : st'[v] = "blocked" /\ mg[v].pool = 0})
            k == Cardinality(rin)
        IN /\ size \in bs..(bs + k)
           /\ (total - size) \in bb..(bb + k)
